@@ -85,7 +85,7 @@ def run(ck):
     plans = plans[:nplans]
     cases = []
     for i, p in enumerate(plans):
-        script = ["plain", "modules", "strindex", "fails"][i % 4]
+        script = ["plain", "modules", "strindex", "fails", "fails2"][i % 5]
         cases.append({"id": i + 1, "plan": {str(g): ops for g, ops in p.items()}, "script": script, "reps": 3 if quick else 10})
     racedir = ck.path("race")
     os.makedirs(racedir, exist_ok=True)
